@@ -140,7 +140,7 @@ impl Profile {
                 p.hist_len = (1, 14);
                 p.pct_follow_order = 88;
             }
-            "C07" => {
+            "C07" | "C15" | "C16" => {
                 p.name = "C07-fallthrough";
                 p.n_methods = (0, 4);
                 p.pats_per_method = (1, 3);
